@@ -1450,3 +1450,37 @@ func SpecSegRight(seg *memorySegment) int64 { panic("abstract spec function") }
 //@   ensures log_end: len(mc.aofSegs) > 0 ==> result == SpecSegRight(mc.aofSegs[len(mc.aofSegs) - 1])
 //@   ensures snapshot_only: len(mc.aofSegs) == 0 && mc.rdb != nil ==> result == mc.rdb.left
 //@   ensures nothing: len(mc.aofSegs) == 0 && mc.rdb == nil ==> result == 0 - 1
+
+// ---- memory cache: the answers are about the history the cache is labelled with (C06, C16, C05) ----
+//@ func MemoryChannel.IsValidOffset
+//@   arith int
+//@   properties C05 C06 C16
+//@   requires nonnil: mc != nil && (forall k int :: 0 <= k && k < len(mc.aofSegs) ==> mc.aofSegs[k] != nil)
+//@   modifies foundAt
+//@   ensures an_offset_of_another_history_is_never_valid: off.RunId != "?" && off.RunId != mc.runId ==> !result
+//@   ensures a_valid_offset_is_served_by_the_snapshot_or_lies_behind_every_hole: result && off.RunId != "?" ==> (mc.rdb != nil && mc.rdb.replayable && off.Offset <= mc.rdb.left) || (0 <= foundAt && foundAt < len(mc.aofSegs) && contiguousFrom(mc, foundAt) && mc.aofSegs[foundAt].left <= off.Offset && off.Offset <= SpecSegRight(mc.aofSegs[foundAt]))
+
+//@ func MemoryChannel.GetOffsetRange
+//@   arith int
+//@   properties C05 C06 C16
+//@   requires nonnil: mc != nil && (forall k int :: 0 <= k && k < len(mc.aofSegs) ==> mc.aofSegs[k] != nil)
+//@   modifies nothing
+//@   ensures no_range_for_another_history: runId != mc.runId ==> result0 == 0 - 1 && result1 == 0 - 1
+//@   ensures the_log_range_ends_where_the_log_ends: runId == mc.runId && len(mc.aofSegs) > 0 ==> result1 == SpecSegRight(mc.aofSegs[len(mc.aofSegs) - 1])
+
+//@ func MemoryChannel.GetRdb
+//@   arith int
+//@   properties C05 C06 C16
+//@   requires nonnil: mc != nil
+//@   modifies nothing
+//@   ensures a_snapshot_is_offered_only_under_the_caches_own_id_and_only_when_complete: result0 != 0 - 1 || result1 != 0 - 1 ==> runId == mc.runId && mc.rdb != nil && mc.rdb.replayable && result0 == mc.rdb.left && result1 == mc.rdb.size
+
+//@ func MemoryChannel.StartPoint
+//@   arith int
+//@   properties C06 C16
+//@   requires nonnil: mc != nil && (forall k int :: 0 <= k && k < len(mc.aofSegs) ==> mc.aofSegs[k] != nil)
+//@   modifies nothing
+//@   ensures the_position_offered_is_the_caches_own_or_none: result1 == nil && (result0.RunId == mc.runId || (result0.RunId == "?" && result0.Offset == 0 - 1))
+//@   ensures a_foreign_history_gets_no_position: len(ids) > 0 && (forall j int :: 0 <= j && j < len(ids) ==> ids[j] != mc.runId) ==> result0.RunId == "?" && result0.Offset == 0 - 1
+//@   loop 1:
+//@     invariant none_matched_so_far: 0 - 1 <= rangeindex && rangeindex < len(ids) && runID == mc.runId && (forall j int :: 0 <= j && j <= rangeindex ==> !(ids[j] == runID && runID != "" && ids[j] != "" && ids[j] != "?"))
